@@ -16,9 +16,19 @@ Qed.
 
 (* a stored value is safe whatever it contains, as long as its DEK is a secret atom: both ciphertexts are under
    unsafe keys *)
+Lemma junks_safe keys : all_safe (map Junk keys) = true.
+Proof. induction keys as [|k r IH]; cbn; [reflexivity | exact IH]. Qed.
+
+(* keysetInfo is public data: handing it out gives the adversary nothing *)
+Lemma info_safe keys : safe (info keys) = true.
+Proof.
+  unfold info. rewrite safe_Tup. cbn [all_safe forallb]. rewrite safe_Tup. fold (all_safe (map Junk keys)).
+  rewrite junks_safe. reflexivity.
+Qed.
+
 Lemma sval_safe d keys : secret_atom d = true -> safe (sval d keys) = true.
 Proof.
-  intro S. unfold sval. rewrite safe_Tup. cbn [all_safe forallb].
+  intro S. unfold sval. rewrite safe_Tup. cbn [all_safe forallb]. rewrite info_safe.
   cbn [safe empty master a_master secret_atom]. rewrite S. cbn. reflexivity.
 Qed.
 
@@ -33,7 +43,8 @@ Definition st_safe (st : kstate) : Prop := all_safe (writes st) = true /\ all_sa
 Lemma step_safe st o : st_safe st -> st_safe (fst (step st o)).
 Proof.
   intros [W O]. unfold st_safe.
-  destruct o as [a|a|k|r|r|r|k acc|r wk]; cbn [step].
+  destruct o as [a|a|k|r|r|r|k acc|r wk|]; cbn [step].
+  9: { cbn [fst writes outs]. rewrite ?app_nil_r, ?W, ?O. split; reflexivity. }
   8: { cbn [fst writes outs]. rewrite ?app_nil_r, ?W, ?O. split; reflexivity. }
   7: { destruct acc; cbn [fst writes outs]; rewrite ?all_safe_app, ?app_nil_r, ?W, ?O; cbn [all_safe forallb];
        rewrite ?sval_safe by apply odd_dk; split; reflexivity. }
@@ -77,7 +88,8 @@ Proof.
              (forall x, In x w -> is_sval x) ->
              In v (writes st ++ w) -> is_sval v).
   { intros w Hw I'. apply in_app_or in I'. destruct I' as [I'|I']; [apply H | apply Hw]; exact I'. }
-  destruct o as [a|a|k|r|r|r|k acc|r wk]; cbn [step] in I.
+  destruct o as [a|a|k|r|r|r|k acc|r wk|]; cbn [step] in I.
+  9: { cbn [fst writes] in I. eapply G; [|exact I]. intros x []. }
   8: { cbn [fst writes] in I. eapply G; [|exact I]. intros x []. }
   7: { destruct acc; cbn [fst writes] in I; (eapply G; [|exact I]); intros x Hx; cbn in Hx; try contradiction;
        destruct Hx as [<-|[]]; eexists _, _; reflexivity. }
@@ -164,3 +176,9 @@ Proof.
   apply andb_true_iff in E as [E1 E2]. apply term_eqb_eq in E1. apply term_eqb_eq in E2. subst.
   intro H; inversion H; reflexivity.
 Qed.
+
+(* a restart writes nothing, returns nothing, and leaves every issued keyset as it was *)
+Lemma reopen_nothing st :
+  writes (fst (step st Reopen)) = writes st /\ outs (fst (step st Reopen)) = outs st /\
+  issued (fst (step st Reopen)) = issued st /\ snd (step st Reopen) = ([], [], true).
+Proof. cbn [step fst snd writes outs issued]. rewrite !app_nil_r. repeat split; reflexivity. Qed.
